@@ -56,6 +56,8 @@ pub fn catalogue() -> Vec<(&'static str, Vec<&'static str>)> {
         ("EVAL failing pcall then write", vec!["EVAL", "redis.pcall('INCR', KEYS[1]) redis.call('SET', KEYS[2], 'after') return 1", "2", "sl", "k2"]),
         ("EVAL error before any write", vec!["EVAL", "error('early') redis.call('SET', KEYS[1], 'never')", "1", "k2"]),
         ("GET", vec!["GET", "k"]), ("unknown", vec!["NOSUCHCMD", "k"]),
+        // a rewrite request must leave the log a faithful one, and what is written after it must still be logged
+        ("BGREWRITEAOF", vec!["BGREWRITEAOF"]),
     ]
 }
 
